@@ -317,5 +317,22 @@ func genC20(repo string) (string, error) {
 		return true
 	})
 	canonList(sy, "syncer_sync_conds", conds, "if-conditions of RegionSyncer.Sync, source order")
+	// how long the bootstrap transaction (kv.NewSlowLogTxn) waits for etcd: the bound below which a slow commit is still
+	// answered by its outcome (the model's Ok outcome covers every latency below it)
+	ekv, err := goast.Load(repo, "server/kv/etcd_kv.go")
+	if err != nil {
+		return "", err
+	}
+	if err := o.constZ(ekv, "requestTimeout", "kv_request_timeout_ns"); err != nil {
+		return "", err
+	}
+	if err := o.skeletonCanon(ekv, "", "NewSlowLogTxn", "skel_NewSlowLogTxn", goast.SkelOpt{Calls: set("WithTimeout", "Ctx", "Txn"), Conds: true}); err != nil {
+		return "", err
+	}
+	nt, err := ekv.Func("", "NewSlowLogTxn")
+	if err != nil {
+		return "", err
+	}
+	canonList(nt, "slowlogtxn_timeouts", callTexts20(ekv, nt, "WithTimeout"), "the context of a NewSlowLogTxn transaction")
 	return o.sb.String(), nil
 }
